@@ -54,6 +54,11 @@ CHECKS = {
    technique="deterministic simulation: full chain + real resolver over a geo-style authoritative zone that records every received OPT and tags answers with audience/scope/serial; policy model as oracle",
    text="Seeded search over ECS policies (incl. invalid ceilings and client networks), scope behaviours of the authority (zero/same/narrower/wider/fixed), client sequences from allowed and disallowed addresses with subnet options of both families, any netmask, host bits set or family mismatch plus other EDNS options, fake-time gaps across the scoped TTL cap, prefetch on/off. Upstream sees no client option except a policy-conformant truncated subnet for allowed clients; no ECS in client replies; a scoped answer reaches only clients inside its effective scope and never unscoped clients; scoped answers respect the cap; no subnet-bearing upstream query without a client query behind it.",
    note="Audience, scope and serial are carried in rdata by the simulated authority. The shared-denial clause for ECS/CD questions is covered by C02's CD clause and only partly here."),
+ "C20": dict(
+   level="exploration", design="§3 C20",
+   technique="deterministic simulation: full chain incl. dns64 + real resolver; faults placed separately on the AAAA leg and the A leg; independent RFC 6052 embed/extract + zone model as oracle",
+   text="Seeded search over DNS64 configurations (prefixes of every legal and some illegal lengths, well-known prefix with its excluded ranges, client networks, excluded zones), zones with A-only/AAAA-only/both/excluded-AAAA/alias chains/absent names, signed or not, leg faults (silent, SERVFAIL, REFUSED, corrupted signatures), tiny budgets and RD/CD/DO/AD/eligibility mixes plus ip6.arpa PTR questions for synthesised addresses. Synthesised AAAA must be exactly the RFC 6052 embedding of the final name's usable A records, reversible, correctly owned, TTL-bounded, only when allowed, never over NXDOMAIN / validation failure / cached failure, never with AD.",
+   note="RFC 6147 lets a DNS64 treat non-NXDOMAIN failure rcodes as an empty answer, so synthesis over a plain upstream SERVFAIL/REFUSED/timeout is not flagged. The embedding bijection is sampled, not enumerated."),
 }
 
 NOT_APPLICABLE = {
